@@ -7,6 +7,7 @@ use crate::vx_hash::*;
 use crate::vx_str::*;
 use crate::vx_utf8::*;
 use crate::vx_fmt::*;
+use crate::vx_gram::*;
 broadcast use {vstd::std_specs::hash::group_hash_axioms, crate::vx_hash_ax::group_key_models, crate::vx_hash::group_string_keys, crate::vx_fmt::group_disp};
 //@]
 use crate::data::{table::*, validated_file::*, DollarlessTerminalName, RustSrc};
@@ -20,9 +21,10 @@ const ACTION_ACCEPT_VARIANT_NAME: &/*@[*/'static /*@]*/str = "Accept";
 const ACTION_ERR_VARIANT_NAME: &/*@[*/'static /*@]*/str = "Err";
 
 pub fn table_to_rust(table: &Table, file: &File, grammar_src: &str) -> /*@[*/(r: /*@]*/RustSrc/*@[*/)/*@]*/
-    //@[ C15 C07 table_to_rust: the emitted text carries the SHA-256 of exactly the grammar source it was given
+    //@[ C15 C07 C06 C12 table_to_rust: the emitted text carries the SHA-256 of exactly the grammar source it was given
     requires emit_pre(table, file),
     ensures spec_hash(r.0@) == Some(sha256_hex(grammar_src@)),
+        emits_type_section(r.0@, file), emits_parse_sig(r.0@, file),
     //@]
 {
     let builder = SrcBuilder::new(table, file, grammar_src);
@@ -73,6 +75,7 @@ spec fn names_fresh(b: SrcBuilder) -> bool {
 /// size bound under which the emitter's counters cannot overflow (C07 quantifies over bounded inputs)
 pub open spec fn emit_pre(table: &Table, file: &File) -> bool {
     file.nonterminals@.len() + file.terminal_enum.variants@.len() < 0x7ffe_0000 && table.terminals@.len() < usize::MAX
+    && file_terms_known(file)
 }
 //@]
 
@@ -282,20 +285,114 @@ proof fn lemma_header_reads_back(h: Seq<char>, rest: Seq<char>)
 //@[ C12 C06 ghost: the type section of the emitted text
 /// somewhere in the text: the terminal enum's attribute block immediately followed by `pub enum <name> {`, its variants,
 /// the closing brace, a blank line, and then the nonterminal type definitions
-spec fn emits_type_section(text: Seq<char>, b: &SrcBuilder) -> bool {
-    exists|pre: Seq<char>, vtext: Seq<char>, post: Seq<char>| #[trigger] type_section_at(text, b, pre, vtext, post)
+pub open spec fn emits_type_section(text: Seq<char>, b: &File) -> bool {
+    exists|pre: Seq<char>, post: Seq<char>| #[trigger] type_section_at(text, b, pre, indent_of_seq(terminal_variants_src(b), 1), post)
 }
-spec fn type_section_at(text: Seq<char>, b: &SrcBuilder, pre: Seq<char>, vtext: Seq<char>, post: Seq<char>) -> bool {
-    text == pre + (attrs_src(b.file.terminal_enum.attributes@) + ("pub enum "@ + (b.file.terminal_enum.name@ + (" {\n"@ + (vtext + ("\n}\n\n"@
-        + (join_spec(b.file.nonterminals@.map_values(|nt: Nonterminal| typedef_src(b, nt)), "\n\n"@) + post)))))))
+pub open spec fn type_section_at(text: Seq<char>, b: &File, pre: Seq<char>, vtext: Seq<char>, post: Seq<char>) -> bool {
+    text == pre + (attrs_src(b.terminal_enum.attributes@) + ("pub enum "@ + (b.terminal_enum.name@ + (" {\n"@ + (vtext + ("\n}\n\n"@
+        + (join_spec(b.nonterminals@.map_values(|nt: Nonterminal| typedef_src(b, nt)), "\n\n"@) + post)))))))
 }
-proof fn lemma_type_section(b: &SrcBuilder, a0: Seq<char>, a1: Seq<char>, a2: Seq<char>, y: Seq<char>, vtext: Seq<char>, post: Seq<char>)
-    requires y == attrs_src(b.file.terminal_enum.attributes@) + ("pub enum "@ + (b.file.terminal_enum.name@ + (" {\n"@ + (vtext + ("\n}\n\n"@
-        + (join_spec(b.file.nonterminals@.map_values(|nt: Nonterminal| typedef_src(b, nt)), "\n\n"@) + post))))))
+proof fn lemma_type_section(b: &File, a0: Seq<char>, a1: Seq<char>, a2: Seq<char>, y: Seq<char>, vtext: Seq<char>, post: Seq<char>)
+    requires vtext == indent_of_seq(terminal_variants_src(b), 1), y == attrs_src(b.terminal_enum.attributes@) + ("pub enum "@ + (b.terminal_enum.name@ + (" {\n"@ + (vtext + ("\n}\n\n"@
+        + (join_spec(b.nonterminals@.map_values(|nt: Nonterminal| typedef_src(b, nt)), "\n\n"@) + post))))))
     ensures emits_type_section(a0 + (a1 + (a2 + y)), b)
 {
     assert(a0 + (a1 + (a2 + y)) =~= ((a0 + a1) + a2) + y);
     assert(type_section_at(a0 + (a1 + (a2 + y)), b, (a0 + a1) + a2, vtext, post));
+}
+//@]
+
+//@[ C06 ghost: the emitted parse signature
+/// `pub fn parse<P>(src: P) -> Result<Start, Option<TerminalEnum>> where P: IntoIterator<Item = TerminalEnum> {` for a type parameter name p
+pub open spec fn parse_sig(fl: &File, p: Seq<char>, post: Seq<char>) -> Seq<char> {
+    "pub fn parse<"@ + (p + (">(src: "@ + (p + (") -> Result<"@ + (fl.start@ + (", Option<"@ + (fl.terminal_enum.name@ + (">>\nwhere "@ + (p + (": IntoIterator<Item = "@
+        + (fl.terminal_enum.name@ + ("> {"@ + post))))))))))))
+}
+pub open spec fn ends_with(text: Seq<char>, suffix: Seq<char>) -> bool { exists|pre: Seq<char>| text == #[trigger] (pre + suffix) }
+pub open spec fn emits_parse_sig(text: Seq<char>, fl: &File) -> bool {
+    exists|p: Seq<char>, post: Seq<char>| ends_with(text, #[trigger] parse_sig(fl, p, post))
+}
+proof fn lemma_ends_with_cons(a: Seq<char>, x: Seq<char>, s: Seq<char>)
+    requires ends_with(x, s)
+    ensures ends_with(a + x, s)
+{
+    let pre = choose|pre: Seq<char>| x == #[trigger] (pre + s);
+    assert(a + x =~= (a + pre) + s);
+}
+pub open spec fn doc_piece() -> Seq<char> { r#"
+
+/// If the parser encounters an unexpected token `t`, it will return `Err(Some(t))`.
+/// If the parser encounters an unexpected end of input, it will return `Err(None)`.
+pub fn parse<"#@ }
+pub open spec fn sig_last_piece() -> Seq<char> { r#"> {
+    let mut quasiterminals = src.into_iter()
+        .map("#@ }
+proof fn lemma_sig_pieces()
+    ensures doc_piece() == r#"
+
+/// If the parser encounters an unexpected token `t`, it will return `Err(Some(t))`.
+/// If the parser encounters an unexpected end of input, it will return `Err(None)`.
+"#@ + "pub fn parse<"@, sig_last_piece() == "> {"@ + r#"
+    let mut quasiterminals = src.into_iter()
+        .map("#@
+{
+    reveal_strlit(r#"
+
+/// If the parser encounters an unexpected token `t`, it will return `Err(Some(t))`.
+/// If the parser encounters an unexpected end of input, it will return `Err(None)`.
+pub fn parse<"#); reveal_strlit(r#"
+
+/// If the parser encounters an unexpected token `t`, it will return `Err(Some(t))`.
+/// If the parser encounters an unexpected end of input, it will return `Err(None)`.
+"#); reveal_strlit("pub fn parse<");
+    reveal_strlit(r#"> {
+    let mut quasiterminals = src.into_iter()
+        .map("#); reveal_strlit(r#"
+    let mut quasiterminals = src.into_iter()
+        .map("#); reveal_strlit("> {");
+    assert(doc_piece() =~= r#"
+
+/// If the parser encounters an unexpected token `t`, it will return `Err(Some(t))`.
+/// If the parser encounters an unexpected end of input, it will return `Err(None)`.
+"#@ + "pub fn parse<"@);
+    assert(sig_last_piece() =~= "> {"@ + r#"
+    let mut quasiterminals = src.into_iter()
+        .map("#@);
+}
+/// the signature is a suffix-prefix of the text whatever precedes the doc comment and follows the opening brace
+proof fn lemma_parse_sig(fl: &File, c: Seq<Seq<char>>, p: Seq<char>, rest: Seq<char>)
+    requires c.len() == 10
+    ensures emits_parse_sig(
+        c[0] + (c[1] + (c[2] + (c[3] + (c[4] + (c[5] + (c[6] + (c[7] + (c[8] + (c[9] + (doc_piece() + (p + (">(src: "@ + (p + (") -> Result<"@ + (fl.start@
+            + (", Option<"@ + (fl.terminal_enum.name@ + (">>\nwhere "@ + (p + (": IntoIterator<Item = "@ + (fl.terminal_enum.name@ + (sig_last_piece() + rest)))))))))))))))))))))),
+        fl)
+{
+    lemma_sig_pieces();
+    let docpre = r#"
+
+/// If the parser encounters an unexpected token `t`, it will return `Err(Some(t))`.
+/// If the parser encounters an unexpected end of input, it will return `Err(None)`.
+"#@;
+    let post = r#"
+    let mut quasiterminals = src.into_iter()
+        .map("#@ + rest;
+    let tail = p + (">(src: "@ + (p + (") -> Result<"@ + (fl.start@ + (", Option<"@ + (fl.terminal_enum.name@ + (">>\nwhere "@ + (p + (": IntoIterator<Item = "@
+        + (fl.terminal_enum.name@ + (sig_last_piece() + rest)))))))))));
+    let sig = parse_sig(fl, p, post);
+    assert(doc_piece() + tail =~= docpre + sig) by {
+        assert(sig_last_piece() + rest =~= "> {"@ + post);
+    }
+    assert(ends_with(doc_piece() + tail, sig));
+    lemma_ends_with_cons(c[9], doc_piece() + tail, sig);
+    lemma_ends_with_cons(c[8], c[9] + (doc_piece() + tail), sig);
+    lemma_ends_with_cons(c[7], c[8] + (c[9] + (doc_piece() + tail)), sig);
+    lemma_ends_with_cons(c[6], c[7] + (c[8] + (c[9] + (doc_piece() + tail))), sig);
+    lemma_ends_with_cons(c[5], c[6] + (c[7] + (c[8] + (c[9] + (doc_piece() + tail)))), sig);
+    lemma_ends_with_cons(c[4], c[5] + (c[6] + (c[7] + (c[8] + (c[9] + (doc_piece() + tail))))), sig);
+    lemma_ends_with_cons(c[3], c[4] + (c[5] + (c[6] + (c[7] + (c[8] + (c[9] + (doc_piece() + tail)))))), sig);
+    lemma_ends_with_cons(c[2], c[3] + (c[4] + (c[5] + (c[6] + (c[7] + (c[8] + (c[9] + (doc_piece() + tail))))))), sig);
+    lemma_ends_with_cons(c[1], c[2] + (c[3] + (c[4] + (c[5] + (c[6] + (c[7] + (c[8] + (c[9] + (doc_piece() + tail)))))))), sig);
+    lemma_ends_with_cons(c[0], c[1] + (c[2] + (c[3] + (c[4] + (c[5] + (c[6] + (c[7] + (c[8] + (c[9] + (doc_piece() + tail))))))))), sig);
 }
 //@]
 
@@ -306,9 +403,10 @@ impl SrcBuilder<'_> {
     fn file_src(&self) -> /*@[*/(r: /*@]*/RustSrc/*@[*/)/*@]*/
         //@[ C15 C07 C12 C06 file_src: get_grammar_hash reads the SHA-256 of the exact grammar source back from the emitted text
         requires self.table.terminals@.len() < usize::MAX, self.file.terminal_enum.variants@.len() < usize::MAX,
-            self.terminal_enum_name@ == self.file.terminal_enum.name@,
+            self.terminal_enum_name@ == self.file.terminal_enum.name@, file_terms_known(self.file),
+            self.start_type_name@ == self.file.start@,
         ensures spec_hash(r.0@) == Some(sha256_hex(self.grammar_src@)),
-            emits_type_section(r.0@, self),
+            emits_type_section(r.0@, self.file), emits_parse_sig(r.0@, self.file),
         //@]
     {
         let grammar_sha256 = /*@{ T13_sha256*//*@- sha256::digest *//*@|*/crate::vx_fmt::__vx_sha256_hex/*@}*/(self.grammar_src);
@@ -373,13 +471,20 @@ impl SrcBuilder<'_> {
             let d1 = terminal_enum_attributes@;
             let d2 = terminal_enum_name@;
             let d4 = nonterminal_type_defs@;
-            assert forall|vtext: Seq<char>, post: Seq<char>|
-                emits_type_section(#[trigger] (hdr0() + (h + (hdr1() + (d1 + ("pub enum "@ + (d2 + (" {\n"@ + (vtext + ("\n}\n\n"@ + (d4 + post)))))))))), self) by {
-                lemma_type_section(self, hdr0(), h, hdr1(), d1 + ("pub enum "@ + (d2 + (" {\n"@ + (vtext + ("\n}\n\n"@ + (d4 + post)))))), vtext, post);
+            let vtext = terminal_enum_variants_indent_1@;
+            let pp = parse_src_type_param_name@;
+            let st = start_type_name@;
+            assert forall|rest: Seq<char>| emits_parse_sig(hdr0() + (h + (hdr1() + (d1 + ("pub enum "@ + (d2 + (" {\n"@ + (vtext + ("\n}\n\n"@ + (d4 + (doc_piece()
+                + (pp + (">(src: "@ + (pp + (") -> Result<"@ + (st + (", Option<"@ + (d2 + (">>\nwhere "@ + (pp + (": IntoIterator<Item = "@ + (d2 + #[trigger] (sig_last_piece() + rest)))))))))))))))))))))), self.file) by {
+                lemma_parse_sig(self.file, seq![hdr0(), h, hdr1(), d1, "pub enum "@, d2, " {\n"@, vtext, "\n}\n\n"@, d4], pp, rest);
+            }
+            assert forall|post: Seq<char>|
+                emits_type_section(#[trigger] (hdr0() + (h + (hdr1() + (d1 + ("pub enum "@ + (d2 + (" {\n"@ + (vtext + ("\n}\n\n"@ + (d4 + post)))))))))), self.file) by {
+                lemma_type_section(self.file, hdr0(), h, hdr1(), d1 + ("pub enum "@ + (d2 + (" {\n"@ + (vtext + ("\n}\n\n"@ + (d4 + post)))))), vtext, post);
             }
         }
         //@]
-        RustSrc(format!(
+        RustSrc(/*@[*/{ let __vx_s = /*@]*/format!(
             r#"// This code was generated by Kiki.
 // Kiki is an open-source minimalist parser generator for Rust.
 // You can read more at https://crates.io/crates/kiki
@@ -541,35 +646,42 @@ impl {node_enum_name} {{
 {node_try_into_terminal_variant_name_variant_index_fns_indent_1}
 }}
 "#
-        ))
+        )/*@[*/; proof { lemma_sig_pieces(); /* makes the ground terms doc_piece() / sig_last_piece() known to the solver */ } __vx_s }/*@]*/)
     }
 
-    //@[ O: iterator adapters / string building outside the supported subset (body not verified, no contract)
-    #[verifier::external_body]
-    //@]
-    fn get_terminal_enum_variants_src(&self) -> String {
-        self.file
+    fn get_terminal_enum_variants_src(&self) -> /*@[*/(r: /*@]*/String/*@[*/)/*@]*/
+        //@[ C06 C13 get_terminal_enum_variants_src: one variant `<Name>(<declared payload type>),` per terminal, in declaration order
+        ensures r@ == terminal_variants_src(self.file),
+        //@]
+    {
+        /*@[*/let __vx_v = /*@]*/self.file
             .terminal_enum
             .variants
             .iter()
-            .map(|variant| {
+            .map(|variant/*@[*/: &TerminalVariant/*@]*/| /*@[*/-> (o: String) ensures o@ == terminal_variant_line(*variant) /*@]*/{
                 let name = variant.dollarless_name.raw();
                 let type_ = &variant.type_;
                 format!("{name}({type_}),")
             })
-            .collect::<Vec<_>>()
-            .join("\n")
+            .collect::<Vec<_>>()/*@[*/;
+        proof { assert(str_views(__vx_v@) =~= self.file.terminal_enum.variants@.map_values(|v: TerminalVariant| terminal_variant_line(v))); }
+        __vx_join(&__vx_v, /*@]*/
+            /*@{ T17_join3*//*@- .join( *//*@|*//*@}*/"\n")
     }
 
     fn get_nonterminal_type_defs_src(&self) -> /*@[*/(r: /*@]*/String/*@[*/)/*@]*/
         //@[ C12 C06 get_nonterminal_type_defs_src: one definition per nonterminal in declaration order, separated by blank lines; each is its attribute block immediately followed by `pub struct <name>` / `pub enum <name> {`
-        ensures r@ == join_spec(self.file.nonterminals@.map_values(|nt: Nonterminal| typedef_src(self, nt)), "\n\n"@),
+        requires file_terms_known(self.file),
+        ensures r@ == join_spec(self.file.nonterminals@.map_values(|nt: Nonterminal| typedef_src(self.file, nt)), "\n\n"@),
         //@]
     {
         /*@[*/let __vx_defs = /*@]*/self.file
             .nonterminals
             .iter()
-            .map(|nonterminal/*@[*/: &Nonterminal/*@]*/| /*@[*/-> (o: String) ensures o@ == typedef_src(self, *nonterminal) { /*@]*/match nonterminal {
+            .map(|nonterminal/*@[*/: &Nonterminal/*@]*/| /*@[*/-> (o: String)
+                requires nt_terms_known(self.file, *nonterminal)
+                ensures o@ == typedef_src(self.file, *nonterminal)
+            { /*@]*/match nonterminal {
                 Nonterminal::Struct(s) => {
                     let attributes =
                         get_attributes_src_with_newline_after_each_attribute(&s.attributes);
@@ -590,7 +702,9 @@ impl {node_enum_name} {{
                     let variants_indent_1 = /*@[*/{ let __vx_v = /*@]*/e
                         .variants
                         .iter()
-                        .map(|variant/*@[*/: &EnumVariant/*@]*/| /*@[*/-> (o2: String) ensures o2@ == variant_line(self, *variant) /*@]*/{
+                        .map(|variant/*@[*/: &EnumVariant/*@]*/| /*@[*/-> (o2: String)
+                            requires fieldset_terms_known(self.file, variant.fieldset)
+                            ensures o2@ == variant_line(self.file, *variant) /*@]*/{
                             let variant_name = &variant.name.name;
                             let variant_fieldset = self.get_fieldset_src(
                                 &variant.fieldset,
@@ -602,27 +716,39 @@ impl {node_enum_name} {{
                             format!("{variant_name}{variant_fieldset},")
                         })
                         .collect::<Vec<_>>()
-                        /*@{ T17_join1*//*@- .join( *//*@|*/; proof { assert(str_views(__vx_v@) =~= e.variants@.map_values(|v: EnumVariant| variant_line(self, v))); } __vx_join(&__vx_v, /*@}*/"\n")/*@[*/ }/*@]*/
+                        /*@{ T17_join1*//*@- .join( *//*@|*/; proof { assert(str_views(__vx_v@) =~= e.variants@.map_values(|v: EnumVariant| variant_line(self.file, v))); } __vx_join(&__vx_v, /*@}*/"\n")/*@[*/ }/*@]*/
                         .indent(1);
                     format!("{attributes}pub enum {nonterminal_name} {{\n{variants_indent_1}\n}}")
                 }
             }/*@[*/ }/*@]*/)
             .collect::<Vec<_>>()/*@[*/;
         proof {
-            assert(str_views(__vx_defs@) =~= self.file.nonterminals@.map_values(|nt: Nonterminal| typedef_src(self, nt)));
+            assert(str_views(__vx_defs@) =~= self.file.nonterminals@.map_values(|nt: Nonterminal| typedef_src(self.file, nt)));
         }
         __vx_join(&__vx_defs, /*@]*/
             /*@{ T17_join2*//*@- .join( *//*@|*//*@}*/"\n\n")
     }
 
-    //@[ O: iterator adapters / string building outside the supported subset (body not verified; the result is only named, not described)
-    #[verifier::external_body]
-    //@]
     fn get_fieldset_src(&self, fieldset: &Fieldset, options: GetFieldsetSrcOptions) -> /*@[*/(r: /*@]*/String/*@[*/)/*@]*/
-        //@[ O contract: a function of the builder, the fieldset and the two options
-        ensures r@ == fieldset_src_of(self, *fieldset, options.use_semicolon_if_unnamed, options.use_pub_on_named_fields),
+        //@[ C06 C07 get_fieldset_src: the emitted fields of a struct / variant
+        requires fieldset_terms_known(self.file, *fieldset),
+        ensures r@ == fieldset_src_of(self.file, *fieldset, options.use_semicolon_if_unnamed, options.use_pub_on_named_fields),
         //@]
     {
+        //@[ proof
+        proof {
+            let fsv = *fieldset;
+            match fsv {
+                Fieldset::Named(nf) => { assert forall|i: int| 0 <= i < nf.fields@.len() implies
+                    ((#[trigger] nf.fields@[i]).symbol matches IdentOrTerminalIdent::Terminal(t) ==> term_type(self.file.terminal_enum.variants@, t.name, 0) is Some) by {
+                        assert(fieldset_idents(*fieldset)[i] == nf.fields@[i].symbol); } }
+                Fieldset::Tuple(tf) => { assert forall|i: int| 0 <= i < tf.fields@.len() implies
+                    (tuple_field_sym(#[trigger] tf.fields@[i]) matches IdentOrTerminalIdent::Terminal(t) ==> term_type(self.file.terminal_enum.variants@, t.name, 0) is Some) by {
+                        assert(fieldset_idents(*fieldset)[i] == tuple_field_sym(tf.fields@[i])); } }
+                Fieldset::Empty => {}
+            }
+        }
+        //@]
         match fieldset {
             Fieldset::Empty => self.get_empty_fieldset_src(options),
             Fieldset::Named(fieldset) => self.get_named_fieldset_src(fieldset, options),
@@ -630,10 +756,11 @@ impl {node_enum_name} {{
         }
     }
 
-    //@[ O: iterator adapters / string building outside the supported subset (body not verified, no contract)
-    #[verifier::external_body]
-    //@]
-    fn get_empty_fieldset_src(&self, options: GetFieldsetSrcOptions) -> String {
+    fn get_empty_fieldset_src(&self, options: GetFieldsetSrcOptions) -> /*@[*/(r: /*@]*/String/*@[*/)/*@]*/
+        //@[ C06 get_empty_fieldset_src: unit-like: `;` after a struct name, nothing after a variant name
+        ensures r@ == semi_src(options.use_semicolon_if_unnamed),
+        //@]
+    {
         if options.use_semicolon_if_unnamed {
             ";"
         } else {
@@ -642,14 +769,17 @@ impl {node_enum_name} {{
         .to_owned()
     }
 
-    //@[ O: iterator adapters / string building outside the supported subset (body not verified, no contract)
-    #[verifier::external_body]
-    //@]
     fn get_named_fieldset_src(
         &self,
         fieldset: &NamedFieldset,
         options: GetFieldsetSrcOptions,
-    ) -> String {
+    ) -> /*@[*/(r: /*@]*/String/*@[*/)/*@]*/
+        //@[ C06 C13 C07 get_named_fieldset_src: `_` fields omitted (unit-like if none is used); nonterminal fields are Box<T>, terminal fields have the declared payload type; pub on struct fields
+        requires forall|i: int| 0 <= i < fieldset.fields@.len() ==>
+            ((#[trigger] fieldset.fields@[i]).symbol matches IdentOrTerminalIdent::Terminal(t) ==> term_type(self.file.terminal_enum.variants@, t.name, 0) is Some),
+        ensures r@ == fieldset_src_of(self.file, Fieldset::Named(*fieldset), options.use_semicolon_if_unnamed, options.use_pub_on_named_fields),
+        //@]
+    {
         if !fieldset.has_used_field() {
             return self.get_empty_fieldset_src(options);
         }
@@ -659,10 +789,17 @@ impl {node_enum_name} {{
         } else {
             ""
         };
-        let fields_indent_1 = fieldset
+        //@[ proof
+        let ghost up = options.use_pub_on_named_fields;
+        let ghost g = |f: NamedField| named_line(self.file, up, f);
+        //@]
+        let fields_indent_1 = /*@[*/{ let __vx_v = /*@]*//*@{ T18_open_named*//*@- fieldset
             .fields
             .iter()
-            .filter_map(|field| match (&field.name, &field.symbol) {
+            .filter_map( *//*@|*/__vx_filter_map_collect(&fieldset.fields, /*@}*/|field/*@[*/: &NamedField/*@]*/| /*@[*/-> (o: Option<String>)
+                requires field.symbol matches IdentOrTerminalIdent::Terminal(t) ==> term_type(self.file.terminal_enum.variants@, t.name, 0) is Some
+                ensures opt_map(o, string_view()) == g(*field)
+            { /*@]*/match (&field.name, &field.symbol) {
                 (IdentOrUnderscore::Underscore(_), _) => None,
                 (IdentOrUnderscore::Ident(field_name), IdentOrTerminalIdent::Ident(field_type)) => {
                     let field_name = &field_name.name;
@@ -678,29 +815,38 @@ impl {node_enum_name} {{
                         self.file.terminal_enum.get_type(&field_type.name).unwrap();
                     Some(format!("{pub_}{field_name}: {field_type_name},"))
                 }
-            })
+            }/*@[*/ }/*@]*//*@{ T18_close_named*//*@- )
             .collect::<Vec<_>>()
-            .join("\n")
+            .join( *//*@|*/); proof { assert(str_views(__vx_v@) == filter_map_spec(fieldset.fields@, g)); } __vx_join(&__vx_v, /*@}*/"\n")/*@[*/ }/*@]*/
             .indent(1);
         format!(" {{\n{fields_indent_1}\n}}")
     }
 
-    //@[ O: iterator adapters / string building outside the supported subset (body not verified, no contract)
-    #[verifier::external_body]
-    //@]
     fn get_tuple_fieldset_src(
         &self,
         fieldset: &TupleFieldset,
         options: GetFieldsetSrcOptions,
-    ) -> String {
+    ) -> /*@[*/(r: /*@]*/String/*@[*/)/*@]*/
+        //@[ C06 C13 C07 get_tuple_fieldset_src: skipped fields omitted (unit-like if none is used); nonterminal fields are Box<T>, terminal fields have the declared payload type
+        requires forall|i: int| 0 <= i < fieldset.fields@.len() ==>
+            (tuple_field_sym(#[trigger] fieldset.fields@[i]) matches IdentOrTerminalIdent::Terminal(t) ==> term_type(self.file.terminal_enum.variants@, t.name, 0) is Some),
+        ensures r@ == fieldset_src_of(self.file, Fieldset::Tuple(*fieldset), options.use_semicolon_if_unnamed, options.use_pub_on_named_fields),
+        //@]
+    {
         if !fieldset.has_used_field() {
             return self.get_empty_fieldset_src(options);
         }
 
-        let fields_indent_1 = fieldset
+        //@[ proof
+        let ghost g = |f: TupleField| tuple_line(self.file, f);
+        //@]
+        let fields_indent_1 = /*@[*/{ let __vx_v = /*@]*//*@{ T18_open_tuple*//*@- fieldset
             .fields
             .iter()
-            .filter_map(|field| match field {
+            .filter_map( *//*@|*/__vx_filter_map_collect(&fieldset.fields, /*@}*/|field/*@[*/: &TupleField/*@]*/| /*@[*/-> (o: Option<String>)
+                requires tuple_field_sym(*field) matches IdentOrTerminalIdent::Terminal(t) ==> term_type(self.file.terminal_enum.variants@, t.name, 0) is Some
+                ensures opt_map(o, string_view()) == g(*field)
+            { /*@]*/match field {
                 TupleField::Skipped(_) => None,
                 TupleField::Used(IdentOrTerminalIdent::Ident(field_type)) => {
                     let field_type_name = &field_type.name;
@@ -711,9 +857,9 @@ impl {node_enum_name} {{
                         self.file.terminal_enum.get_type(&field_type.name).unwrap();
                     Some(format!("{field_type_name},"))
                 }
-            })
+            }/*@[*/ }/*@]*//*@{ T18_close_tuple*//*@- )
             .collect::<Vec<_>>()
-            .join("\n")
+            .join( *//*@|*/); proof { assert(str_views(__vx_v@) == filter_map_spec(fieldset.fields@, g)); } __vx_join(&__vx_v, /*@}*/"\n")/*@[*/ }/*@]*/
             .indent(1);
         let possible_semicolon = if options.use_semicolon_if_unnamed {
             ";"
@@ -1306,17 +1452,69 @@ fn create_unique_identifier(preferred_name: &str, used: &mut HashSet<String>) ->
 }
 
 //@[ C12 C06 ghost: the emitted definition of one nonterminal (right-nested like the format! contracts)
-pub uninterp spec fn fieldset_src_of(b: &SrcBuilder, fs: Fieldset, use_semicolon: bool, use_pub: bool) -> Seq<char>;
-spec fn variant_line(b: &SrcBuilder, v: EnumVariant) -> Seq<char> {
-    v.name.name@ + (fieldset_src_of(b, v.fieldset, false, false) + ","@)
+/// C06: the variants of the emitted terminal enum
+pub open spec fn terminal_variant_line(v: TerminalVariant) -> Seq<char> { v.dollarless_name@ + ("("@ + (v.type_@ + "),"@)) }
+pub open spec fn terminal_variants_src(fl: &File) -> Seq<char> {
+    join_spec(fl.terminal_enum.variants@.map_values(|v: TerminalVariant| terminal_variant_line(v)), "\n"@)
 }
-spec fn variants_block(b: &SrcBuilder, vs: Seq<EnumVariant>) -> Seq<char> {
-    join_spec(vs.map_values(|v: EnumVariant| variant_line(b, v)), "\n"@)
+pub open spec fn semi_src(semi: bool) -> Seq<char> { if semi { ";"@ } else { ""@ } }
+pub open spec fn pub_src(p: bool) -> Seq<char> { if p { "pub "@ } else { ""@ } }
+/// the declared payload type of a terminal (C13 decides nothing about how that text was rendered)
+pub open spec fn term_type_src(fl: &File, name: DollarlessTerminalName) -> Seq<char> { term_type(fl.terminal_enum.variants@, name, 0)->Some_0 }
+/// one line per used named field: `[pub ]<name>: Box<Nonterminal>,` or `[pub ]<name>: <payload type>,`; `_` fields give no line
+pub open spec fn named_line(fl: &File, use_pub: bool, f: NamedField) -> Option<Seq<char>> {
+    match (f.name, f.symbol) {
+        (IdentOrUnderscore::Underscore(_), _) => None,
+        (IdentOrUnderscore::Ident(n), IdentOrTerminalIdent::Ident(t)) => Some(pub_src(use_pub) + (n.name@ + (": Box<"@ + (t.name@ + ">,"@)))),
+        (IdentOrUnderscore::Ident(n), IdentOrTerminalIdent::Terminal(t)) => Some(pub_src(use_pub) + (n.name@ + (": "@ + (term_type_src(fl, t.name) + ","@)))),
+    }
 }
-spec fn typedef_src(b: &SrcBuilder, nt: Nonterminal) -> Seq<char> {
+/// one line per used tuple field: `Box<Nonterminal>,` or `<payload type>,`; skipped fields give no line
+pub open spec fn tuple_line(fl: &File, f: TupleField) -> Option<Seq<char>> {
+    match f {
+        TupleField::Skipped(_) => None,
+        TupleField::Used(IdentOrTerminalIdent::Ident(t)) => Some("Box<"@ + (t.name@ + ">,"@)),
+        TupleField::Used(IdentOrTerminalIdent::Terminal(t)) => Some(term_type_src(fl, t.name) + ","@),
+    }
+}
+pub open spec fn named_has_used(nf: NamedFieldset) -> bool { exists|i: int| 0 <= i < nf.fields@.len() && (#[trigger] nf.fields@[i]).name is Ident }
+pub open spec fn tuple_has_used(tf: TupleFieldset) -> bool { exists|i: int| 0 <= i < tf.fields@.len() && (#[trigger] tf.fields@[i]) is Used }
+/// C06: the emitted fieldset - unit-like (`;` for a struct, nothing for a variant) when no field is used, else the used fields, one per line
+pub open spec fn fieldset_src_of(fl: &File, fs: Fieldset, use_semicolon: bool, use_pub: bool) -> Seq<char> {
+    match fs {
+        Fieldset::Empty => semi_src(use_semicolon),
+        Fieldset::Named(nf) => if !named_has_used(nf) { semi_src(use_semicolon) } else {
+            " {\n"@ + (indent_of_seq(join_spec(filter_map_spec(nf.fields@, |f: NamedField| named_line(fl, use_pub, f)), "\n"@), 1) + "\n}"@)
+        },
+        Fieldset::Tuple(tf) => if !tuple_has_used(tf) { semi_src(use_semicolon) } else {
+            "(\n"@ + (indent_of_seq(join_spec(filter_map_spec(tf.fields@, |f: TupleField| tuple_line(fl, f)), "\n"@), 1) + ("\n)"@ + semi_src(use_semicolon)))
+        },
+    }
+}
+/// every terminal that types a field is a variant of the terminal enum (so its payload type can be looked up: no unwrap panic)
+pub open spec fn fieldset_terms_known(fl: &File, fs: Fieldset) -> bool {
+    forall|i: int| 0 <= i < fieldset_idents(fs).len() ==>
+        ((#[trigger] fieldset_idents(fs)[i]) matches IdentOrTerminalIdent::Terminal(t) ==> term_type(fl.terminal_enum.variants@, t.name, 0) is Some)
+}
+pub open spec fn nt_terms_known(fl: &File, nt: Nonterminal) -> bool {
     match nt {
-        Nonterminal::Struct(s) => attrs_src(s.attributes@) + ("pub struct "@ + (s.name.name@ + fieldset_src_of(b, s.fieldset, true, true))),
-        Nonterminal::Enum(e) => attrs_src(e.attributes@) + ("pub enum "@ + (e.name.name@ + (" {\n"@ + (indent_of_seq(variants_block(b, e.variants@), 1) + "\n}"@)))),
+        Nonterminal::Struct(s) => fieldset_terms_known(fl, s.fieldset),
+        Nonterminal::Enum(e) => forall|j: int| 0 <= j < e.variants@.len() ==> fieldset_terms_known(fl, (#[trigger] e.variants@[j]).fieldset),
+    }
+}
+pub open spec fn file_terms_known(fl: &File) -> bool {
+    forall|i: int| 0 <= i < fl.nonterminals@.len() ==> nt_terms_known(fl, #[trigger] fl.nonterminals@[i])
+}
+pub open spec fn variant_line(fl: &File, v: EnumVariant) -> Seq<char> {
+    v.name.name@ + (fieldset_src_of(fl, v.fieldset, false, false) + ","@)
+}
+pub open spec fn variants_block(fl: &File, vs: Seq<EnumVariant>) -> Seq<char> {
+    join_spec(vs.map_values(|v: EnumVariant| variant_line(fl, v)), "\n"@)
+}
+pub open spec fn typedef_src(fl: &File, nt: Nonterminal) -> Seq<char> {
+    match nt {
+        Nonterminal::Struct(s) => attrs_src(s.attributes@) + ("pub struct "@ + (s.name.name@ + fieldset_src_of(fl, s.fieldset, true, true))),
+        Nonterminal::Enum(e) => attrs_src(e.attributes@) + ("pub enum "@ + (e.name.name@ + (" {\n"@ + (indent_of_seq(variants_block(fl, e.variants@), 1) + "\n}"@)))),
     }
 }
 //@]
